@@ -36,3 +36,14 @@ PROP_INFO["C03"] = {"level": "exploration", "rule": WORLD_RULE + " For C03 the c
 SUITES["C03"] = {"quick": [{"family": "world", "mode": "select", "share": 3}, {"family": "world", "mode": "", "share": 1}],
                  "thorough": [{"family": "world", "mode": "select", "share": 3}, {"family": "world", "mode": "", "share": 1}]}
 ALL_FAMILIES.append(("world", "select"))
+
+FSM_RULE = ("seeded sequences over the event alphabet {inbound connect / listener accept|refuse|timeout, OPEN (valid, bad version, bad AS, bad identifier, "
+            "hold 1|2, unsupported optional parameter), KEEPALIVE, UPDATE, ROUTE-REFRESH, NOTIFICATION, bad header (marker, short, long, type), remote close, "
+            "reset, silence for t (up to 241 s virtual), disable, enable, shutdown, reset} applied to one neighbour (passive or active, eBGP or iBGP, hold 9..90), "
+            "each step compared with an executable RFC 4271 state-machine model incl. exact timer instants. NON-TRIVIAL: the run reached OpenSent at least once and "
+            "performed the final state comparison; DISTINCT by (schedule signature, event-log hash).")
+PROP_INFO["C07"] = {"level": "exploration", "rule": FSM_RULE, "probes": ["opensent", "opensent_outbound"], "budget": {"quick": 60, "thorough": 1200}}
+SUITES["C07"] = {"quick": [{"family": "fsm", "mode": "", "share": 1}], "thorough": [{"family": "fsm", "mode": "", "share": 1}]}
+PROP_INFO["C08"] = {"level": "exploration", "rule": "seeded neighbour configuration (families, add-path receive/send-max, hold time incl. 0, 4-octet local AS) x seeded received OPEN (hold 0..180, 2-octet-only, no multiprotocol capability, extended message, add-path modes, duplicated and unknown capabilities); after establishment: OPEN sent vs configuration, ListPeer timers, keepalive cadence and hold expiry on the virtual clock, encoding of an advertised route (path ids, AS_TRANS/AS4_PATH), acceptance of ADD-PATH-encoded and 4096/4097/5000-octet UPDATEs. NON-TRIVIAL: at least one negotiation check executed; DISTINCT by (schedule signature, event-log hash).", "probes": ["nego_checked"], "budget": {"quick": 60, "thorough": 1200}}
+SUITES["C08"] = {"quick": [{"family": "fsm", "mode": "nego", "share": 1}], "thorough": [{"family": "fsm", "mode": "nego", "share": 1}]}
+ALL_FAMILIES += [("fsm", ""), ("fsm", "nego")]
